@@ -208,6 +208,9 @@ def run(ck, F):
 
     # ---------------------------------------------------------------- unchecked dereference lint
     R2 = ck.rule('C14.no-unchecked-deref', 'no accessor dereferences a pointer that may be null without a preceding throwing test', floor=1100)
+    R2c = ck.rule('C14.accessor-returns', 'no accessor, evaluated on an unconstrained object of each concrete class (virtual calls on the '
+                  'object resolved to that class\'s final overriders), comes back to a function that is still being evaluated with the same '
+                  'object and arguments: such a cycle of const members never ends', floor=1100)
     conc = sorted(n for n, r in F.rec.items() if not r['abstract'] and not r.get('lambda')
                   and (F.derives_from(n, 'ipr::Node') or any(a.startswith('ipr::Sequence<') for a in F.ancestors(n))
                        or n.startswith('ipr::cxx_form::impl::') or any(a in ('ipr::Substitution', 'ipr::Capture', 'ipr::Capture_specification',
@@ -278,6 +281,18 @@ def run(ck, F):
                     bad.append(f'{path} (in {contracts.short(contracts.fn_qname(fn or fid))}, line {ln})')
             ck.check(R2, inst, not bad, f'{fid} on a {contracts.short(cls)}: dereferences possibly-null ' + '; '.join(sorted(set(bad))),
                      loc=f['loc'], fn=fid)
+            # an accessor that comes back to a function already being evaluated, on the same object with the same arguments,
+            # has changed nothing in between (const members): it never returns
+            top_args = tuple(('param', i) for i in range(len(f['params'])))
+            loops = set()
+            for s2, k, v in outs:
+                for e in s2.effects:
+                    if e[0] == 'reentry' and e[2] == o and (e[3] == () or (e[1] == fid and e[3] == top_args)):
+                        loops.add((e[1], contracts.render_conds(s2.conds, s2, {o[1]: 'R'})[:90]))
+            ck.check(R2c, inst, not loops, f'{fid} on a {contracts.short(cls)} re-enters ' +
+                     '; '.join(f'{contracts.short(contracts.fn_qname(g))} (when {w or "called"})' for g, w in sorted(loops)[:2]) +
+                     ' on the same object with the same arguments while that call is still being evaluated: unbounded recursion '
+                     '(stack overflow) where a std::logic_error or a result is owed', loc=f['loc'], fn=fid)
     ck.extra['accessor_evaluations'] = nmeth
     ck.extra['classes'] = len(conc)
     ck.extra['exceptions_reachable_from_accessors'] = {k: len(v) for k, v in thrown.items()}
@@ -356,6 +371,29 @@ def run(ck, F):
                     ck.note(f'{inst}: {THROW_ALLOW[t2]}')
                     continue
                 ck.check(R4, inst, ok, f'{f["id"]} throws {t}, which is not derived from std::logic_error', loc=f['loc'], fn=f['id'])
+    # ---------------------------------------------------------------- a refusal must be able to leave the function
+    R4b = ck.rule('C14.noexcept-honest', 'a function written noexcept, and every destructor, has no path on which an exception is raised: '
+                  'an exception that meets a noexcept boundary ends the program (std::terminate) instead of reaching the caller as a '
+                  'std::logic_error -- each such function is evaluated on an unconstrained object, the functions it calls included', floor=3)
+    unanalysed = []
+    for f in sorted(F.fn.values(), key=lambda f: f['id']):
+        if not f.get('body') or f.get('implicit') or not (f.get('noexcept') or f.get('dtor')):
+            continue
+        if not (f.get('loc') or '').startswith(('include/ipr', 'src/')):
+            continue
+        inst = '::'.join(contracts.short(x) for x in contracts.fn_qname(f['id']).split('::')[-2:]) + ('' if f.get('dtor') else '/' + str(len(f.get('params', []))))
+        try:
+            paths = S.run(f['id'])
+        except Unsupported as e:
+            unanalysed.append(f'{inst}: {e}')
+            continue
+        thr = [(st, v) for st, k, v in paths if k == 'throw']
+        what = '; '.join(sorted({f'{contracts.short(str(v))} when {contracts.render_conds(st.conds, st, {})[:90] or "called"}' for st, v in thr})[:2])
+        ck.check(R4b, inst, not thr, f'{f["id"]} is {"a destructor" if f.get("dtor") else "declared noexcept"} but raises {what}: the refusal '
+                 'never reaches the caller, the program is terminated', loc=f['loc'], fn=f['id'])
+    if unanalysed:
+        ck.note(f'noexcept-honest: {len(unanalysed)} function(s) outside the evaluator language, nothing claimed about them: ' + '; '.join(unanalysed[:4]))
+
     # ---------------------------------------------------------------- no link is left indeterminate by a constructor
     R7 = ck.rule('C14.links-initialised', 'every user-provided constructor of a library class initialises each raw-pointer member that has '
                  'no default member initialiser (in its initialiser list or by assignment in its body): a link that was never set reads '
